@@ -145,26 +145,27 @@ int main(int argc, char **argv) {
   // ---- case list
   struct Case { int prog; Plant pl; };
   std::vector<Case> cases;
-  std::vector<uint32_t> AS = {0, 1, 2, 3, 0x80000000u}, OS = {0, 2, 0xFFFFFF00u};  // breg corners per program below
-  auto BS = [&](const Prog &p) { return std::vector<uint32_t>{0, 2, p.finalWrites.empty() ? 1000u : p.finalWrites[0].first, 199999}; };
+  std::vector<uint32_t> AS = {0, 1, 2, 3, 0x80000000u, 0xFFFFFFFFu}, OS = {0, 2, 0xFFFFFF00u};  // breg corners per program below
+  auto BS = [&](const Prog &p) { return std::vector<uint32_t>{0, 2, p.finalWrites.empty() ? 1000u : p.finalWrites[0].first, 199999, 0x00200000u, 0x80000000u, 0xFFFFFFFFu}; };   // incl. values above the address width
   bool th = ctx.thorough();
   for (int pi = 0; pi < (int)progs.size(); pi++) {
     cases.push_back({pi, Plant{0, 0, 0, 0, 0, 0, 0, 0}});
     // (a) power-on pc outside the image, first fetched bytes (b1,b2)
-    std::vector<int> b2s = th && pi == 1 ? std::vector<int>() : std::vector<int>{0xD3, 0x22, 0x30, 0x90};
-    if (b2s.empty()) for (int b = 0; b < 256; b++) b2s.push_back(b);
-    // register corners: quick 6, thorough all 60 for program 1 and 12 for the others
+    std::vector<int> b2four = {0xD3, 0x22, 0x30, 0x90}, b2all; for (int b = 0; b < 256; b++) b2all.push_back(b);
+    // register corners: quick 6, quick 9, thorough all 126 for program 1 (all byte pairs for 42 of them) and 18 for the others
     std::vector<std::array<uint32_t, 3>> corners;
     auto bs = BS(progs[pi]);
     if (th && pi == 1) { for (auto a : AS) for (auto b : bs) for (auto o : OS) corners.push_back({a, b, o}); }
-    else if (th) { for (auto a : AS) for (auto o : OS) if (corners.size() < 12) corners.push_back({a, bs[(a + o) % bs.size()], o}); }
-    else corners = {{{0, 0, 0}}, {{1, 2, 0}}, {{2, bs[2], 2}}, {{3, 199999, 0xFFFFFF00u}}, {{0x80000000u, 2, 2}}, {{1, bs[2], 0}}};
-    for (auto &c : corners) for (int b1 = 0; b1 < 256; b1++) for (int b2 : b2s) for (uint32_t lane : {0u, 3u}) {
+    else if (th) { for (auto a : AS) for (auto o : OS) if (corners.size() < 18) corners.push_back({a, bs[(a * 3 + o) % bs.size()], o}); }
+    else corners = {{{0, 0, 0}}, {{1, 2, 0}}, {{2, bs[2], 2}}, {{3, 199999, 0xFFFFFF00u}}, {{0x80000000u, 2, 2}}, {{1, bs[2], 0}}, {{0xFFFFFFFFu, 0x80000000u, 0}}, {{2, 0xFFFFFFFFu, 0xFFFFFF00u}}, {{1, 0x00200000u, 2}}};
+    // thorough, program 1: all 65536 byte pairs for every third corner (42 of 126), the four second bytes for the others
+    for (size_t cix = 0; cix < corners.size(); cix++) for (int b1 = 0; b1 < 256; b1++) for (int b2 : (th && pi == 1 && cix % 3 == 0 ? b2all : b2four)) for (uint32_t lane : {0u, 3u}) {
+      auto &c = corners[cix];
       if (lane == 3 && !(b1 == 0xD3 || b2 == 0xD3 || (b1 & 0xF0) == 0x20 || (b1 & 0xF0) == 0x80) && !th) continue;
       cases.push_back({pi, Plant{1, W0 * 4 + lane, c[0], c[1], c[2], (uint8_t)b1, (uint8_t)b2, 0}});
     }
     // (b) power-on pc at every byte of the image
-    for (uint32_t pc = 0; pc < progs[pi].imageWords * 4; pc++) for (size_t ci = 0; ci < corners.size() && ci < 6; ci++)
+    for (uint32_t pc = 0; pc < progs[pi].imageWords * 4; pc++) for (size_t ci = 0; ci < corners.size() && ci < 9; ci++)
       cases.push_back({pi, Plant{2, pc, corners[ci][0], corners[ci][1], corners[ci][2], 0, 0, 0}});
     // (c) Verilator's own randomisation, in-process
     for (unsigned s = 1; s <= (th ? 3000u : 300u); s++) cases.push_back({pi, Plant{3, 0, 0, 0, 0, 0, 0, s}});
@@ -242,7 +243,7 @@ int main(int argc, char **argv) {
   rep.evaluations = c["runs"] + c["process_runs"]; rep.states = c["runs"]; rep.transitions = rep.evaluations; rep.validated = rep.evaluations;
   rep.nontrivial = c["runs_planted_outside"] + c["runs_planted_inside"] + c["runs_random_seed"] + c["process_runs"];
   rep.rule = "power-on states: (a) pc planted at a word outside the image holding every first byte 0..255 x second bytes {SVC, STAM 2, LDAC 0, BR 0} (thorough: all 65536 pairs for one program) x register corners "
-             "(areg in {0,1,2,3,2^31}, breg in {0, image word, a stack word, 199999}, oreg in {0, image word, 0xFFFFFF00}); (b) pc planted at every byte of the image; (c) Verilator's randomisation for seeds 1..N "
+             "(areg in {0,1,2,3,2^31,2^32-1}, breg in {0, image word, a stack word, 199999, 2^21, 2^31, 2^32-1}, oreg in {0, image word, 0xFFFFFF00}); (b) pc planted at every byte of the image; (c) Verilator's randomisation for seeds 1..N "
              "in-process and through the built hextb executable; x 6 programs (exit, write, read with/without input, recursion, store-first); each run uses hextb.cpp's own load()/run() in a fresh process; "
              "oracle: stdout after the banner, exit status, input consumption equal the reference, and the final RTL memory equals the loaded image plus exactly the reference run's writes";
   rep.bounds.kv("programs", (uint64_t)progs.size()).kv("cases", (uint64_t)cases.size());
